@@ -2704,8 +2704,11 @@ func (p *parser) parseLambdaExpr(allowTuple, allowCmd, allowRangeExpr bool) (x a
 			RhsHasParen: rhsHasParen,
 		}, false
 	} else if isTuple && !allowTuple {
-		p.error(x.(*tupleExpr).opening, msgTupleNotSupported)
+		t := x.(*tupleExpr)
+		p.error(t.opening, msgTupleNotSupported)
 		p.advance(stmtStart)
+		// a tupleExpr is not a real expression node: don't let it escape
+		x, isTuple = &ast.BadExpr{From: t.opening, To: p.safePos(t.closing + 1)}, false
 	}
 	return
 }
